@@ -364,6 +364,10 @@ func wildOracle(prop string) func(info *runInfo, res *verifsim.Result) {
 				res.Violate(prop+".model", "model", "%s", why)
 				continue
 			}
+			if in.ambiguous {
+				res.Probe("listings_side_by_side_saw_different_tables")
+				continue
+			}
 			if prop != "C15" {
 				stale := false
 				for i, from := range w.build.addrIf {
